@@ -138,6 +138,11 @@ def _weave_states_in_region(
                     if_state = _weave_states_in_region(op.true_region, state.copy(), rewriter)
                     else_state = _weave_states_in_region(op.false_region, state.copy(), rewriter)
 
+                    # a state that got invalidated in at least one of the branches (e.g. by a function
+                    # call) is not known after the if either:
+                    for accel in [k for k in state if k not in if_state or k not in else_state]:
+                        del state[accel]
+
                     # calculate the delta:
                     delta = calc_if_state_delta(state, if_state, else_state)
                     # no delta = nothing to do
@@ -180,6 +185,14 @@ def _weave_states_in_region(
                 # a for loop necessitates us to introduce a loop-carried variable
                 # that carries the state through the loop
                 elif isinstance(op, scf.ForOp):
+                    # a loop body that may change accelerator state behind our back (e.g. a function call)
+                    # cannot carry a state across iterations. Weave the body on its own and forget
+                    # everything we knew.
+                    if has_accfg_effects(op):
+                        _weave_states_in_region(op.body, dict(), rewriter)
+                        state.clear()
+                        continue
+
                     # go through the for loop body find all accelerators that are touched
                     # the order of this tuple is important
                     updated_accelerators = tuple(sorted(find_all_acc_names_in_region(op.body)))
@@ -251,6 +264,12 @@ def _weave_states_in_region(
                 # any other op that contains ops:
                 elif op.regions:
                     _weave_states_in_region(op, dict(), rewriter)
+                    # accelerators set up inside the regions are in an unknown state afterwards
+                    for region in op.regions:
+                        for accel in find_all_acc_names_in_region(region):
+                            state.pop(accel, None)
+                    if has_accfg_effects(op):
+                        state.clear()
                 # Check if the op has effects on accfg state
                 elif has_accfg_effects(op):
                     state.clear()
